@@ -77,6 +77,25 @@ def alphabet(name: str) -> list[dict]:
     return al
 
 
+def with_poke(call: dict, name: str, rnd: random.Random) -> dict:
+    """With probability 1/3 the inverter's registers change right before the call (production goes on, somebody used the
+    app): a value handed out earlier must not follow such changes."""
+    if rnd.random() > 1 / 3:
+        return call
+    fam, g1 = OBJECTS[name][0], OBJECTS[name][4]
+    regs = {}
+    for first, count in {"ET": [(35100, 125), (37000, 24)], "DT": [(30100, 73)]}.get(fam, []):
+        for a_ in rnd.sample(range(first, first + count), 12):
+            regs[a_] = rnd.randrange(65536)
+    sim: dict = {"set": {str(k): v for k, v in regs.items()}}
+    if g1:
+        b = bytes.fromhex(rnd.choice(list((V2_PRIORS if OBJECTS[name][3] == "v2" else V1_PRIORS).values())))
+        sim["set"].update({str(g1 + i): int.from_bytes(b[2 * i:2 * i + 2], "big") for i in range(len(b) // 2)})
+    if fam == "ES":
+        sim["aa55"] = {"runtime": [rnd.randrange(256) for _ in range(149)]}
+    return dict(call, _poke=sim)
+
+
 def shuffles(n1: int, n2: int) -> list[tuple[int, ...]]:
     out = []
     for pos in itertools.combinations(range(n1 + n2), n1):
@@ -106,6 +125,9 @@ def run_shuffle(job: dict) -> dict:
     def records_here(arg) -> list[list[dict]]:
         calls, only = arg
         oplogs: list = []
+        # a call may be preceded by a change of the object's own inverter (the world moves on between two calls)
+        calls = [x for c in calls for x in ([{"o": c["o"], "sim": c["_poke"]}] if "_poke" in c else []) +
+                 [{k: v for k, v in c.items() if k != "_poke"}]]
         if only is None:
             prog = {"inv": job["inv"], "calls": calls}
         else:
@@ -227,8 +249,8 @@ def check(prop: str, tier: str, seed: int) -> int:
     for (a, b) in PAIRS:
         for _ in range(nseq):
             l1, l2 = rnd.randint(1, L), rnd.randint(1, L)
-            s1 = [rnd.choice(alphabet(a)) for _ in range(l1)]
-            s2 = [rnd.choice(alphabet(b)) for _ in range(l2)]
+            s1 = [with_poke(rnd.choice(alphabet(a)), a, rnd) for _ in range(l1)]
+            s2 = [with_poke(rnd.choice(alphabet(b)), b, rnd) for _ in range(l2)]
             pa = rnd.choice(["zeros", "charge247", "partial", "garbage", "charge247_745", "unset", "peak"])
             pb = rnd.choice(["zeros", "charge247", "partial", "garbage", "charge247_745", "unset", "peak"])
             sh = shuffles(l1 + 1, l2 + 1)
@@ -248,6 +270,19 @@ def check(prop: str, tier: str, seed: int) -> int:
                     for pb in (["garbage", "zeros"] if quick else dpri):
                         jobs.append({"pair": [a, b], "s1": s1, "s2": s2, "priors": [pa, pb], "shuffles": dshuffles(len(s1) + 1, len(s2) + 1, quick, rnd),
                                      "inv": [obj_spec(a, rnd, pa), obj_spec(b, rnd, pb)]})
+    # directed jobs for the second half of the statement: a reading call, a change of the inverter's registers, the same
+    # call again - the value handed out first must keep its content (every reading call of every object type)
+    for a, b in [("et205", "et745"), ("et745tcp", "et205"), ("es_v1", "es_v2"), ("es_v2", "et205"), ("dt3", "dt1"), ("dt1", "dt3_f7")]:
+        for x in alphabet(a):
+            if x["api"].startswith(("set_", "write_")):
+                continue
+            x2 = with_poke(x, a, random.Random(len(jobs)))
+            while "_poke" not in x2:
+                x2 = with_poke(x, a, rnd)
+            for s2 in ([{"api": "read_runtime_data"}], [x]):
+                jobs.append({"pair": [a, b], "s1": [x, x2], "s2": s2, "priors": ["partial", "zeros"],
+                             "shuffles": dshuffles(3, len(s2) + 1, quick, rnd),
+                             "inv": [obj_spec(a, rnd, "partial"), obj_spec(b, rnd, "zeros")]})
     res = engine.parallel_map("harness.checks_shuffle", "run_shuffle", jobs, procs=16, chunk=2)
     cases, src, inter = judge_results(run, res)
     from . import checks_sim
